@@ -16,8 +16,17 @@ type solverSpec struct {
 	argv func(timeoutS int) []string
 }
 
+// The primary configuration (relevancy filtering off) decided every obligation of the
+// first 690 within 10 s where the default configuration timed out on 6; the others are
+// raced only on what the primary leaves undecided.
 var solvers = []solverSpec{
-	{"z3-new", func(t int) []string { return []string{"z3-new", "-in", "-smt2", fmt.Sprintf("-T:%d", t)} }},
+	{"z3-new", func(t int) []string {
+		return []string{"z3-new", "-in", "-smt2", fmt.Sprintf("-T:%d", t), "smt.relevancy=0"}
+	}},
+	{"z3-new-default", func(t int) []string { return []string{"z3-new", "-in", "-smt2", fmt.Sprintf("-T:%d", t)} }},
+	{"z3-new-euf", func(t int) []string {
+		return []string{"z3-new", "-in", "-smt2", fmt.Sprintf("-T:%d", t), "sat.euf=true", "tactic.default_tactic=smt"}
+	}},
 	{"cvc5", func(t int) []string {
 		return []string{"cvc5", "--lang=smt2", "--incremental", fmt.Sprintf("--tlimit=%d", t*1000), "-"}
 	}},
@@ -60,6 +69,20 @@ func (o *Obligation) smt(withModel bool) string {
 	return b.String()
 }
 
+// dropQuantified removes the quantified background axioms (frames, zero-initialisation).
+// A model of the remainder is only a *candidate* counterexample.
+func dropQuantified(smt string) string {
+	var b strings.Builder
+	for _, l := range strings.Split(smt, "\n") {
+		if strings.HasPrefix(l, "(assert (forall") || strings.HasPrefix(l, "(assert (=> ") && strings.Contains(l, "(forall ((") {
+			continue
+		}
+		b.WriteString(l)
+		b.WriteByte('\n')
+	}
+	return b.String()
+}
+
 func runSolver(s solverSpec, input string, timeoutS int) (verdict, output string, secs float64) {
 	ctx, cancel := context.WithTimeout(context.Background(), time.Duration(timeoutS+2)*time.Second)
 	defer cancel()
@@ -91,92 +114,98 @@ func runSolver(s solverSpec, input string, timeoutS int) (verdict, output string
 	return
 }
 
-// discharge runs the portfolio on one obligation.
-func discharge(o *Obligation, timeoutS int, cross bool) {
-	// trivial goals
+// phase 1: the primary solver alone, one process per worker.
+func dischargePrimary(o *Obligation, timeoutS int) {
 	if o.Goal == "true" {
 		o.Verdict, o.Solver = "unsat", "trivial"
 		return
 	}
-	input := o.smt(true)
-	quick := 4
-	if quick > timeoutS {
-		quick = timeoutS
-	}
-	v, out, t := runSolver(solvers[0], input, quick)
-	o.Time = t
-	if v == "unsat" || v == "sat" {
-		o.Verdict, o.Solver, o.Output = v, solvers[0].name, out
-		if v == "sat" {
-			o.Model = out
-		}
-		if cross && v == "unsat" {
-			crossCheck(o, timeoutS)
-		}
+	if o.Class == "vacuity" {
+		// only "unsat" matters here (contradictory assumptions); keep it cheap
+		v, out, t := runSolver(solvers[0], o.smt(false), 2)
+		o.Verdict, o.Solver, o.Output, o.Time = v, solvers[0].name, out, t
 		return
 	}
-	// race all
+	v, out, t := runSolver(solvers[0], o.smt(true), timeoutS)
+	o.Time = t
+	o.Verdict, o.Solver, o.Output = v, solvers[0].name, out
+	if v == "sat" {
+		o.Model = out
+	}
+}
+
+// phase 2 (only for obligations the primary solver did not decide): the other solvers,
+// then a candidate-model search without the quantified axioms.
+func dischargeFallback(o *Obligation, timeoutS int) {
+	if o.Class == "vacuity" || o.Verdict == "unsat" || o.Verdict == "sat" {
+		return
+	}
 	type res struct {
 		v, out, name string
 		t          float64
 	}
-	ch := make(chan res, len(solvers))
 	noModel := o.smt(false)
-	for _, s := range solvers {
+	ch := make(chan res, len(solvers))
+	for _, s := range solvers[1:] {
 		s := s
 		go func() {
-			in := input
-			if s.name != "z3-new" {
-				in = noModel
-			}
-			v, out, t := runSolver(s, in, timeoutS)
+			v, out, t := runSolver(s, noModel, timeoutS)
 			ch <- res{v, out, s.name, t}
 		}()
 	}
-	var last res
-	var outs []string
-	for range solvers {
+	outs := []string{solvers[0].name + ": " + o.Verdict + " " + firstLines(o.Output, 2)}
+	decided := false
+	for range solvers[1:] {
 		r := <-ch
 		o.Time += r.t
-		outs = append(outs, r.name+": "+r.v+" "+firstLines(r.out, 3))
-		if r.v == "unsat" || r.v == "sat" {
+		outs = append(outs, r.name+": "+r.v+" "+firstLines(r.out, 2))
+		if !decided && (r.v == "unsat" || r.v == "sat") {
 			o.Verdict, o.Solver, o.Output = r.v, r.name, r.out
-			if r.v == "sat" {
-				o.Model = r.out
-			}
-			return
+			decided = true
 		}
-		last = r
 	}
-	_ = last
+	if decided {
+		return
+	}
 	o.Verdict = "unknown"
 	o.Output = strings.Join(outs, "\n")
-	// z3 keeps a candidate model after "unknown (incomplete quantifiers)": keep it for replay
-	for _, ou := range outs {
-		_ = ou
+	if o.Raw == "" {
+		v, out, t := runSolver(solvers[0], dropQuantified(o.smt(true)), 10)
+		o.Time += t
+		if v == "sat" {
+			o.Model = out
+			o.Output += "\ncandidate model (quantified background axioms dropped):\n" + out
+		}
 	}
 }
 
 func crossCheck(o *Obligation, timeoutS int) {
+	if o.Verdict != "unsat" || o.Class == "vacuity" || o.Goal == "true" {
+		return
+	}
 	in := o.smt(false)
 	for _, s := range solvers[1:] {
-		v, _, _ := runSolver(s, in, timeoutS)
+		if s.name == o.Solver || strings.HasPrefix(s.name, "z3-new") {
+			continue
+		}
+		v, _, t := runSolver(s, in, timeoutS)
+		o.Time += t
 		if v == "sat" {
 			o.Verdict = "disagree"
-			o.Output += "\n" + s.name + " reports sat while z3-new reports unsat"
+			o.Output += "\n" + s.name + " reports sat while " + o.Solver + " reports unsat"
 		}
 	}
 }
 
 func firstLines(s string, n int) string {
-	ls := strings.Split(s, "\n")
+	ls := strings.Split(strings.TrimSpace(s), "\n")
 	if len(ls) > n {
 		ls = ls[:n]
 	}
 	return strings.Join(ls, " | ")
 }
 
-func dischargeAll(obls []*Obligation, timeoutS int, cross bool, workers int) {
+func parallel(obls []*Obligation, workers int, f func(*Obligation)) {
 	var wg sync.WaitGroup
 	ch := make(chan *Obligation)
 	for i := 0; i < workers; i++ {
@@ -184,7 +213,7 @@ func dischargeAll(obls []*Obligation, timeoutS int, cross bool, workers int) {
 		go func() {
 			defer wg.Done()
 			for o := range ch {
-				discharge(o, timeoutS, cross)
+				f(o)
 			}
 		}()
 	}
@@ -193,4 +222,18 @@ func dischargeAll(obls []*Obligation, timeoutS int, cross bool, workers int) {
 	}
 	close(ch)
 	wg.Wait()
+}
+
+func dischargeAll(obls []*Obligation, timeoutS int, cross bool, workers int) {
+	parallel(obls, workers, func(o *Obligation) { dischargePrimary(o, timeoutS) })
+	var rest []*Obligation
+	for _, o := range obls {
+		if o.Class != "vacuity" && o.Verdict != "unsat" && o.Verdict != "sat" {
+			rest = append(rest, o)
+		}
+	}
+	parallel(rest, 6, func(o *Obligation) { dischargeFallback(o, timeoutS) })
+	if cross {
+		parallel(obls, 8, func(o *Obligation) { crossCheck(o, timeoutS) })
+	}
 }
